@@ -4,7 +4,8 @@ import lib
 from lib import cstr, clist
 
 CELLS = ["c%d", "c%d {{a|x}}", "c%d [[l|t]]", "'''c%d'''", "''c%d''", "c%d <b>h</b>", "c%d word word", "c%d [http://x.y e]",
-         "c%d {{a|[[l]]}}", "c%d", "c%d 12", "c%d <span class=\"s\">q</span>"]
+         "c%d {{a|[[l]]}}", "c%d", "c%d 12", "c%d <span class=\"s\">q</span>", "c%d {{#if:a|b}}", "{{lc:Foo}} c%d", "c%d {{uc:x}} t",
+         "c%d {{PAGENAME}}", "c%d {{#switch:a|a=1|2}}"]
 ANAMES = ["class", "style", "id", "colspan", "data-x", "lang", "rowspan", "title", "data_kind", "row.no", "cell~ref", "xml:lang",
           "nowrap", "hidden", "reversed", "open", "align", "dir"]
 AVALS = ["x", "wikitable", "2", "a-b", "a_b", "r.s", "Zz9", ""]
@@ -19,7 +20,7 @@ INLINE_TAGS_SKIP = {"pre", "nowiki", "math", "hiero", "chem", "ce", "gallery", "
 ARG_ATOMS = {"a": "a", "b c": "b c", "k=v": "k=v", " x ": " x ", "1=z": "1=z", "t{{a|y}}": "t<TEMPLATE>", "[[l]]": "<LINK>", "": "",
              "q r": "q r", "[[l|b [x] c]]": "<LINK>", "[[a [x] b]]": "<LINK>", "[x]": "[x]", "[http://x.y e]": "<URL>",
              "[[l|see [http://x.y s] now]]": "<LINK>", "k=[[l|b [1] c]]": "k=<LINK>", "{{a|[[l|[y]]]}}": "<TEMPLATE>",
-             "{{{1|d}}}": "<TEMPLATE_ARG>"}
+             "{{{1|d}}}": "<TEMPLATE_ARG>", "{{#if:a|b}}": "<PARSER_FN>", "x{{lc:Foo}}": "x<PARSER_FN>", "{{PAGENAME}}": "<PARSER_FN>"}
 
 
 def gen_attrs(rng, maxn=3):
